@@ -154,7 +154,7 @@ class TlcResult:
 
 
 def run_tlc_raw(ctx, module, cfg=None, workers=8, timeout=1200, env=None, simulate=None, depth=None, extra=(), heap="8g",
-                dfs=False, name=None, coverage=False):
+                dfs=False, name=None, coverage=False, allow_timeout=False):
     """Runs TLC on SPEC/<module>.tla with SPEC/<cfg>.cfg."""
     cfg = cfg or module
     name = name or os.path.basename(cfg).replace(".cfg", "")
@@ -181,9 +181,11 @@ def run_tlc_raw(ctx, module, cfg=None, workers=8, timeout=1200, env=None, simula
     t = time.time()
     r = subprocess.run(cmd, cwd=SPEC, env=e, stdout=subprocess.PIPE, stderr=subprocess.STDOUT, text=True)
     shutil.rmtree(meta, ignore_errors=True)
-    if r.returncode == 124:
+    if r.returncode == 124 and not allow_timeout:
         raise ToolError("TLC timed out on %s after %ds" % (cfg, timeout))
     res = TlcResult(r.stdout, r.returncode)
+    if r.returncode == 124:
+        res.error = None      # simulation stopped by the time budget
     res.wall = time.time() - t
     log("tlc %s: %d generated / %d distinct, depth %d, %.1fs%s" % (
         name, res.generated, res.distinct, res.depth, res.wall, "" if res.ok else "  [NOT OK]"))
@@ -221,6 +223,47 @@ def validate_trace(ctx, module, trace_path, name=None, timeout=900, heap="4g"):
         sys.stderr.write(res.out[-4000:])
         raise ToolError("trace validation of %s failed to run: %s" % (trace_path, res.error))
     return True, None, n, res
+
+
+def tlc_generate(ctx, module, cfg, tag, want, depth, workers=2, hard_timeout=240, name=None):
+    """Runs TLC in simulation mode and collects values printed as PrintT(<<tag, ToJson(x)>>) until `want` of them
+    were seen (or the time budget is used up), then stops TLC. Seeded by ctx.seed."""
+    import threading
+    name = name or os.path.basename(cfg).replace(".cfg", "")
+    meta = ctx.path("tlc-" + name)
+    e = dict(os.environ)
+    e["JAVA_TOOL_OPTIONS"] = "-Xss1g"
+    cmd = ["java", "-XX:+UseParallelGC", "-Xmx4g", "-cp",
+           "/opt/veriftools/tla/tla2tools.jar:/opt/veriftools/tla/CommunityModules-deps.jar", "tlc2.TLC",
+           "-workers", str(workers), "-metadir", meta, "-noGenerateSpecTE", "-seed", str(ctx.seed),
+           "-simulate", "num=100000000", "-depth", str(depth), "-config", cfg, os.path.join(SPEC, module + ".tla")]
+    t = time.time()
+    proc = subprocess.Popen(cmd, cwd=SPEC, env=e, stdout=subprocess.PIPE, stderr=subprocess.STDOUT, text=True)
+    timer = threading.Timer(hard_timeout, proc.kill)
+    timer.start()
+    vals, tail = [], []
+    pat = re.compile(r'^<<"%s", (.*)>>$' % re.escape(tag))
+    try:
+        for line in proc.stdout:
+            m = pat.match(line.strip())
+            if m:
+                v = json.loads(m.group(1))
+                vals.append(json.loads(v) if isinstance(v, str) else v)
+                if len(vals) >= want:
+                    break
+            else:
+                tail.append(line)
+                tail = tail[-60:]
+    finally:
+        timer.cancel()
+        proc.kill()
+        proc.wait()
+        shutil.rmtree(meta, ignore_errors=True)
+    log("tlc generate %s: %d %s values in %.1fs" % (name, len(vals), tag, time.time() - t))
+    if not vals:
+        sys.stderr.write("".join(tail))
+        raise ToolError("TLC generated nothing from %s" % name)
+    return vals
 
 
 def tlc_counterexample(res):
